@@ -49,4 +49,13 @@ def run(tier, seed):
             ', REECA1, REPCA1, WTTQA1, PVD1, ESD1' if tier == 'thorough' else ''), 'settings': nm, 'counted_as_proved': False, 'kind': 'bounded native: stock cases, no disturbance'})
         if badm:
             pack.violation(mname, {'bounded': True, 'inputs': badm, 'native_cmd': 'contracts/bounded_modes.py'})
+    from contracts import bounded_fractions as BFR
+    fname = 'C05/andes/models/governor/ieeeg1.py:IEEEG1Model/bounded:turbine-fractions-that-do-not-add-up-to-one-are-normalised-and-initialise-to-an-equilibrium'
+    r = native_guard(pack, fname, BFR.run)
+    if r is not None:
+        nf, badf = r
+        pack.bounded.append({'function': 'TDS.init with IEEEG1 fractions K1..K8 scaled by %s (end to end)' % (BFR.FACTORS,), 'cases': nf,
+                             'kind': 'bounded native: %s' % BFR.CASE, 'counted_as_proved': False})
+        if badf:
+            pack.violation(fname, {'bounded': True, 'inputs': badf, 'native_cmd': 'contracts/bounded_fractions.py'})
     return pack.finish()
